@@ -197,6 +197,8 @@ LEMMAS = {
     'C19': 'Also: the REAL bodies (script.ds as compiled into the MIR constants of the current tree) of unset, map_contains_key, array_is_empty, set_is_empty, '
            'map_is_empty, set_from_array (thorough: concat) run through the real AliasCommand::run, eval_instructions, runner::run_instruction and the real '
            'commands their bodies use, with symbolic arguments, caller variables (incl. near-miss prefixes) and collections.',
+    'C12': 'Also: the creating commands array, map, set_new, map_keys, set_to_array from a symbolic handle table: the result is a handle that was not live, every '
+           'live handle is unchanged, exactly one handle is added, the new collection holds exactly what the model says.',
     'C07': 'Also: utils::eval::parse (the re-serialiser behind eval, alias commands and command conditions) on an arbitrary argument vector: no panic site reachable.',
     'C16': 'Also: less_than / greater_than on plain integer literals (partial f64 model: integer literals exact, strings with a character no number literal has '
            'are errors; fractions, exponents, inf, nan outside).',
